@@ -170,7 +170,7 @@ def check_case(ck, drv, r, case, tier, tag, prep=None, base=None, extra=()):
                 pass
         ck.violate({"case": c01.compact(small), "order": o}, what)
     # correspondence: every realised schedule through the model's asynchronous semantics
-    reqs = [gen_wf.to_req(case, schedule=obs["events"]) for _, obs in runs]
+    reqs = [gen_wf.to_req(case, schedule=obs["events"], nschedule=obs["nevents"]) for _, obs in runs]
     answers = drv.ask(reqs)
     for (o, obs), ans in zip(runs, answers):
         if "error" in ans:
@@ -191,9 +191,21 @@ def check_case(ck, drv, r, case, tier, tag, prep=None, base=None, extra=()):
             adiff = wf_run.compare(obs, am)
             if adiff:
                 rel = "async-model-vs-implementation:" + ",".join(adiff)
+        if rel is None:      # the FULL schedule (inner steps of sub-workflows interleaved) through the nested model
+            if len(obs["nevents"]) > len(obs["events"]):
+                ck.count("nested-traces-with-inner-events")
+            na = ans.get("nasync")
+            if na is None:
+                rel = "nested trace-inclusion: the full completion schedule of the real loop is not executable in the nested model"
+            elif not na.get("complete"):
+                rel = "nested trace-inclusion: the real loop's full schedule leaves steps unfinished in the nested model"
+            else:
+                ndiff = wf_run.compare(obs, wf_run.model_view({**na, "api": []}))
+                if ndiff:
+                    rel = "nested-async-model-vs-implementation:" + ",".join(ndiff)
         ck.count("traces_validated_against_impl")
         if rel:
-            ck.disagree({"case": c01.compact(case), "order": o, "events": obs["events"]},
+            ck.disagree({"case": c01.compact(case), "order": o, "events": obs["events"], "nevents": obs["nevents"]},
                         {k: seq.get(k) for k in ("overall", "state", "conditions", "classes")},
                         {k: obs.get(k) for k in ("overall", "state", "conditions", "classes")}, rel)
             break
